@@ -174,6 +174,23 @@ def tell_payload(case, op, cur_ids):
     return arrays, U.enc_jacobian(jac_ids), [U.col(cols[f]) for f in order], jac_ids, fail, meta
 
 
+def decoy_ask(n_emitters, name):
+    """another, unrelated scheduler (its own archive and emitters, other batch sizes) asks between this scheduler's ask and tell: what a
+    scheduler remembers about a round is its own, not its class's"""
+    from ribs.schedulers import Scheduler
+    try:
+        Spy = U.make_spy_emitter_class()
+        arch = U.make_spy_archive("grid", [])
+        ems = [Spy(arch, kind="dqd") for _ in range(n_emitters + 1)]
+        nid = 900000
+        for j, e in enumerate(ems):
+            e.script = list(range(nid, nid + j + 2))
+            nid += j + 2
+        getattr(Scheduler(arch, ems), name)()
+    except Exception:  # noqa   (whatever the decoy does is its own business)
+        pass
+
+
 def run_impl(case, mode=None):
     """Runs the program on the real Scheduler.  Returns dict(outs, final, mops, meta, contents, disturbed)."""
     sch, arch, res, ems = build(case, mode)
@@ -201,6 +218,7 @@ def run_impl(case, mode=None):
                     e.script = list(ids)
                 try:
                     sols = getattr(sch, name)()
+                    decoy_ask(len(ems), name)
                     ids = U.dec_field("solution", sols)
                     r = [0, ids]
                     cur_ids = [i for i in ids if isinstance(i, int)]
